@@ -168,14 +168,17 @@ class Tok:
     def _c(s, key, mk):
         if key not in s.cache: s.cache[key] = mk()
         return s.cache[key]
-    def rsa_priv(s, k, **flags):
+    def rsa_priv(s, k, lead0=False, **flags):
+        """lead0: every big-integer component carries a leading 00 octet (DER INTEGER contents copied verbatim) - must behave exactly like the canonical import"""
+        z = (lambda v: b'\0' + ib(v)) if lead0 else ib
         a = {'CKA_CLASS': s.ck.CKO_PRIVATE_KEY, 'CKA_KEY_TYPE': s.ck.CKK_RSA, 'CKA_SIGN': True, 'CKA_DECRYPT': True, 'CKA_UNWRAP': True, 'CKA_SENSITIVE': False, 'CKA_EXTRACTABLE': True,
-             'CKA_MODULUS': ib(k.n), 'CKA_PUBLIC_EXPONENT': ib(k.e), 'CKA_PRIVATE_EXPONENT': ib(k.d), 'CKA_PRIME_1': ib(k.p), 'CKA_PRIME_2': ib(k.q),
-             'CKA_EXPONENT_1': ib(k.dp), 'CKA_EXPONENT_2': ib(k.dq), 'CKA_COEFFICIENT': ib(k.qinv)}
-        a.update(flags); return s._c(('rsa-priv', k.n, tuple(sorted(flags.items(), key=str))), lambda: s.create(a))
-    def rsa_pub(s, k, **flags):
-        a = {'CKA_CLASS': s.ck.CKO_PUBLIC_KEY, 'CKA_KEY_TYPE': s.ck.CKK_RSA, 'CKA_VERIFY': True, 'CKA_ENCRYPT': True, 'CKA_WRAP': True, 'CKA_MODULUS': ib(k.n), 'CKA_PUBLIC_EXPONENT': ib(k.e)}
-        a.update(flags); return s._c(('rsa-pub', k.n, tuple(sorted(flags.items(), key=str))), lambda: s.create(a, private=False))
+             'CKA_MODULUS': z(k.n), 'CKA_PUBLIC_EXPONENT': z(k.e), 'CKA_PRIVATE_EXPONENT': z(k.d), 'CKA_PRIME_1': z(k.p), 'CKA_PRIME_2': z(k.q),
+             'CKA_EXPONENT_1': z(k.dp), 'CKA_EXPONENT_2': z(k.dq), 'CKA_COEFFICIENT': z(k.qinv)}
+        a.update(flags); return s._c(('rsa-priv', k.n, lead0, tuple(sorted(flags.items(), key=str))), lambda: s.create(a))
+    def rsa_pub(s, k, lead0=False, **flags):
+        z = (lambda v: b'\0' + ib(v)) if lead0 else ib
+        a = {'CKA_CLASS': s.ck.CKO_PUBLIC_KEY, 'CKA_KEY_TYPE': s.ck.CKK_RSA, 'CKA_VERIFY': True, 'CKA_ENCRYPT': True, 'CKA_WRAP': True, 'CKA_MODULUS': z(k.n), 'CKA_PUBLIC_EXPONENT': z(k.e)}
+        a.update(flags); return s._c(('rsa-pub', k.n, lead0, tuple(sorted(flags.items(), key=str))), lambda: s.create(a, private=False))
     def dsa_priv(s, k):
         return s._c(('dsa-priv', k.p, k.x), lambda: s.create({'CKA_CLASS': s.ck.CKO_PRIVATE_KEY, 'CKA_KEY_TYPE': s.ck.CKK_DSA, 'CKA_SIGN': True, 'CKA_SENSITIVE': False, 'CKA_EXTRACTABLE': True,
                                                                'CKA_PRIME': ib(k.p), 'CKA_SUBPRIME': ib(k.q), 'CKA_BASE': ib(k.g), 'CKA_VALUE': ib(k.x)}))
